@@ -305,6 +305,28 @@ def c17_case(args):
         if user_sev:
             cfg["severity"] = {"Guideline": {"type": "warning"}}
             cfg["rule"]["entity_008"] = {"severity": "Guideline"}
+        # every top-level section of a configuration file is part of the effective configuration
+        extras = []
+        if r.random() < 0.4:
+            cfg["indent"] = {"tokens": r.choice([{"architecture_body": {"begin_keyword": {"after": 2}}}, {"process_statement": {"process_keyword": {"after": "+2"}, "begin_keyword": {"token": "-2"}}}, {"entity_declaration": {"entity_keyword": {"after": 2}}, "architecture_body": {"architecture_keyword": {"after": 2}}}])}
+            extras.append("indent")
+        if r.random() < 0.25:
+            cfg["skip_phase"] = r.choice([[6], [2, 3], [4], [5, 7]])
+            extras.append("skip_phase")
+        if r.random() < 0.2:
+            cfg["linesep"] = r.choice(["\r\n", "\n"])
+            extras.append("linesep")
+        per_file = {"rule": {r.choice(["entity_004", "architecture_010", "process_012", "signal_007", "port_010"]): {"disable": True}, "whitespace_013": {"disable": True}, "entity_008": {"disable": True}}}
+        use_fr = r.random() < 0.25
+        use_fl = (not use_fr) and r.random() < 0.2
+        if use_fr:
+            cfg["file_rules"] = [{os.path.join(d, "s%d.vhd" % i): per_file} for i in range(len(sample))] + [{os.path.join(d, "g1.vhd"): per_file}, {os.path.join(d, "g2.vhd"): per_file}]
+            extras.append("file_rules")
+        if use_fl:
+            cfg["file_list"] = [{os.path.join(d, "s0.vhd"): per_file}] + [os.path.join(d, "s%d.vhd" % i) for i in range(1, len(sample))]
+            extras.append("file_list")
+        for i, src in enumerate(sample):
+            shutil.copyfile(src, os.path.join(d, "s%d.vhd" % i))
         cp = os.path.join(d, "c.json")
         json.dump(cfg, open(cp, "w"))
         sa = (["--style", style] if style else []) + ["-c", cp]
@@ -324,22 +346,27 @@ def c17_case(args):
             f = os.path.join(d, "s%d.vhd" % i)
             shutil.copyfile(src, f)
             j1, j2 = os.path.join(d, "j1.json"), os.path.join(d, "j2.json")
-            p1 = cli(sa + ["-f", f, "-ap", "--json", j1], d)
-            p2 = cli(["-c", o1, "-f", f, "-ap", "--json", j2], d)
+            fa = [] if use_fl else ["-f", f]
+            if use_fl and i > 0:
+                break
+            p1 = cli(sa + fa + ["-ap", "--json", j1], d)
+            p2 = cli(["-c", o1] + fa + ["-ap", "--json", j2], d)
             if "Traceback" in p2.stderr:
                 probs.append("run under the emitted configuration crashes: %s" % p2.stderr.strip().split("\n")[-1][:120])
                 continue
-            v1 = json.load(open(j1))["files"][0]["violations"]
-            v2 = json.load(open(j2))["files"][0]["violations"]
+            v1 = [x["violations"] for x in json.load(open(j1))["files"]]
+            v2 = [x["violations"] for x in json.load(open(j2))["files"]]
             if v1 != v2 or p1.returncode != p2.returncode:
-                probs.append("violations of %s differ under the emitted configuration (%d vs %d, exit %d vs %d)" % (os.path.basename(src), len(v1), len(v2), p1.returncode, p2.returncode))
+                probs.append("violations of %s differ under the emitted configuration (%d vs %d, exit %d vs %d) [configuration sections: %s]" % (os.path.basename(src), sum(map(len, v1)), sum(map(len, v2)), p1.returncode, p2.returncode, ",".join(extras)))
+            if use_fl:
+                continue
             g1, g2 = os.path.join(d, "g1.vhd"), os.path.join(d, "g2.vhd")
             shutil.copyfile(src, g1)
             shutil.copyfile(src, g2)
             cli(sa + ["-f", g1, "--fix"], d)
             cli(["-c", o1, "-f", g2, "--fix"], d)
-            if open(g1).read() != open(g2).read():
-                probs.append("fixed text of %s differs under the emitted configuration" % os.path.basename(src))
+            if open(g1, newline="").read() != open(g2, newline="").read():
+                probs.append("fixed text of %s differs under the emitted configuration [configuration sections: %s]" % (os.path.basename(src), ",".join(extras)))
         return ((style, seed, user_sev), probs)
     finally:
         shutil.rmtree(d, ignore_errors=True)
